@@ -95,6 +95,7 @@ type Flow struct {
 	caseTag map[ast.Expr]*ast.SwitchStmt
 	inl      map[*ast.CallExpr]*inlined // prepared callee copies per call site (nil = not inlinable)
 	inlStack []*Func                    // callees being inlined around this flow
+	inlLits  []*ast.FuncLit             // literals called on the spot being inlined around this flow
 	self     *Func                      // the declared function the root flow belongs to
 	noInline bool
 	work     int  // enumeration steps of the current attempt
